@@ -2,9 +2,11 @@ PROPS["C17"] = prop(
     "exploration",
     "rapid-generated node sets/keys against the placement laws of the hash ring; rapid-generated memberships against the ring-signature gate of "
     "Cluster.Route/TopicMaster; rapid-generated delivery/loss/reorder/partition schedules over the real Cluster election and health-check code "
-    "(n = 3..5 Cluster values, real rpc.Client over a harness codec) on a virtual clock (testing/synctest), safety invariants after every event; thorough tier: the same generators and oracles also run under Go's native coverage-guided fuzzer (rapid.MakeFuzz, 60 s per target, all cores)",
+    "(n = 3..5 Cluster values, real rpc.Client over a harness codec) on a virtual clock (testing/synctest), safety invariants after every event; rapid-generated health checks, vote requests and timer ticks fed to ONE real failover loop whose peers are unreachable (every protocol situation one event away); rapid-generated changes of the live-node list on a running hub with loaded topics (no master kept for a name another node owns, unmoved topics undisturbed); thorough tier: the same generators and oracles also run under Go's native coverage-guided fuzzer (rapid.MakeFuzz, 60 s per target, all cores)",
     "ring unit: non-trivial = at least 3 node names and at least 100 keys; gate unit: at least 3 configured nodes and at least 20 topics; "
     "election unit: non-trivial = a schedule in which at least 2 different nodes started an election and at least 1 message was lost or delivered out of order; "
+    "node unit: 1-14 events (health check from any peer with term own-2..own+3 and full or reduced node list, vote request with term own-1..own+3, 30-900 ms of time) on a node that starts leaderless, as a follower or as the established leader; non-trivial = at least 3 different situations met; "
+    "rehash unit: 2-5 group topics + me + P2P topics of 4 users loaded on node a of 2-4 configured nodes, 4-16 ops of which 35% change the live list; non-trivial = at least 2 changes, one master moved away and one stayed; "
     "distinct = distinct case data (FNV-64 of the JSON case)",
     "Sampled, not exhaustive: placement laws (order independence, totality, minimal movement on add/remove, signatures differ for different sets) on generated "
     "name sets of 1..9 nodes x replica counts 1..64 x >=100 keys, with the production crc32 hash and with a deliberately weak hash that forces ties; the signature gate "
@@ -15,7 +17,7 @@ PROPS["C17"] = prop(
     "Cluster.run selects at random among ready inputs: the simulator executes each health round in name order (the calls of a round are independent) and hands a request to a node "
     "only while its loop is idle, so histories in which a busy loop finds several queued inputs at once are not explored (a schedule that would get there ends early and is counted "
     "in class ended-early-select-race). Health checks queued at a node that is inside its own health round are not judged for adoption. Node restarts (lost state) are outside the statement. "
-    "Cluster.TopicProxy carries no ring signature and is not gated by the code; it is not judged. Topic traffic between nodes (proxy/master sessions) is outside this simulator.",
+    "Cluster.TopicProxy carries no ring signature and is not gated by the code; it is not judged. Topic traffic between nodes (proxy/master sessions) is outside this simulator: the rehash unit runs one real hub whose peers are down, so proxies never get a master to talk to and only their shutdown is judged.",
     "5/C17", "cluster-sim",
     [Unit("TestC17Ring", "server/ringhash", quick=6000, thorough=250000, shards_quick=4, shards_thorough=16, fuzz="FuzzC17Ring", fuzztime=60),
      Unit("TestC17Gate", "server", quick=2500, thorough=100000, shards_quick=2, shards_thorough=8),
